@@ -391,3 +391,57 @@ Definition op_of (now : Z) (c : consumer) (t : token) : op :=
   end.
 
 Definition accepts (i : idp) (now : Z) (c : consumer) (t : token) : bool := o_ok (exec i (op_of now c t)).
+
+(* ---------------------------------------------------------------- the two identity channels of a token request *)
+
+(* A token request can name a client twice: in the Authorization: Basic header ([tr_basic], id and
+   secret) and in the body ([tr_form_client] / [tr_form_secret]); the two may name different
+   registered clients.  idpOpenIDCTokenHandler takes BOTH the identity and the secret from the header
+   whenever r.BasicAuth() finds one, and from the body only otherwise ([caller]); whatever the other
+   channel says is not looked at.  A request therefore authenticates as at most ONE client, and that
+   client is the one the code's subject is compared with and the ID token's audience is set to. *)
+Definition authenticated_client (r : treq) : option bs :=
+  match caller r with inl (id, _) => Some id | inr _ => None end.
+
+(* the same request with other body credentials / another header *)
+Definition with_form (r : treq) (fc fs : bs) : treq :=
+  {| tr_post := tr_post r; tr_grant := tr_grant r; tr_redirect := tr_redirect r; tr_code := tr_code r;
+     tr_verifier := tr_verifier r; tr_vhash := tr_vhash r; tr_basic := tr_basic r;
+     tr_form_client := fc; tr_form_secret := fs |}.
+Definition with_basic (r : treq) (h : option (bs * bs)) : treq :=
+  {| tr_post := tr_post r; tr_grant := tr_grant r; tr_redirect := tr_redirect r; tr_code := tr_code r;
+     tr_verifier := tr_verifier r; tr_vhash := tr_vhash r; tr_basic := h;
+     tr_form_client := tr_form_client r; tr_form_secret := tr_form_secret r |}.
+
+Definition ch_is_release (r : tresult) : bool := match r with Release _ _ => true | Refuse _ => false end.
+
+(* NOT the code: a variant of the handler in which the "code was issued to this client" test looks
+   at the body's client_id when there is one, while the client is still authenticated from the
+   header.  Kept only for c04_body_subject_reading_refuted. *)
+Definition token_endpoint_body_subject (i : idp) (now : Z) (r : treq) : tresult :=
+  if negb (tr_post r) then Refuse 400
+  else if negb (bs_eqb (tr_grant r) gt_authcode) then Refuse 400
+  else if negb (nonempty (tr_redirect r)) then Refuse 400
+  else if negb (verify (srv i) (tr_code r)) then Refuse 400
+  else match dec_code (t_claims (tr_code r)) with
+  | None => Refuse 400
+  | Some k =>
+    match caller r with
+    | inr s => Refuse s
+    | inl (id, pass) =>
+      match find_client id (clients i) with
+      | None => Refuse 400
+      | Some c =>
+        if nonempty (tr_verifier r) && nonempty (cl_secret c) then Refuse 401
+        else
+          let valid := nonempty (tr_verifier r) && pkce_ok (srv i) k (tr_verifier r) (tr_vhash r) in
+          let valid := if negb valid && nonempty pass then bs_eqb pass (cl_secret c) else valid in
+          if negb valid then Refuse 401
+          else if negb (bs_eqb (if nonempty (tr_form_client r) then tr_form_client r else id) (c_sub k)) then Refuse 401
+          else if c_exp k <? unix now then Refuse 401
+          else if negb (bs_eqb (c_redirect k) (tr_redirect r)) then Refuse 401
+          else if negb (bs_eqb (c_type k) k_code) then Refuse 401
+          else Release (p_id (srv i) now id k) (p_access (srv i) now k)
+      end
+    end
+  end.
